@@ -130,8 +130,6 @@ def replay_rust(rec):
         a24 = base & 0xFFFFFF
         for i in range(3):
             ext_idx |= {(a24 + i) & 0xFFFFF, ((a24 & 0xFFFFF) + i) & 0xFFFFF, 0xB8000 + ((a24 + i) & 0x7FFF), (0xB8000 + (a24 & 0x7FFF) + i) & 0xFFFFF}
-    if config == "pce500-mirror":
-        ext_idx = {e for e in ext_idx if not (0x80000 <= e < 0xB8000)}  # shadowed by the mirror: unreachable, cannot be seeded through the API
     ext = [(idx, init("ext", idx)) for idx in sorted(ext_idx)]
     ins[508] = len(ext)
     for j, (idx, b) in enumerate(ext):
